@@ -318,12 +318,30 @@ func init() {
 					jobs = append(jobs, Job{Pkg: "root", Func: "VerifC19Ping", Args: []int64{v6, mode}, Cfg: cfg(64, 300), Reach: r})
 				}
 			}
+			// thread mode: two concurrent pings and the packet loop; without timeouts (both must succeed) and with
+			pre := -1
+			if tier == "thorough" {
+				pre = 1
+			}
+			for v6 := int64(0); v6 < 2; v6++ {
+				for rev := int64(0); rev < 2; rev++ {
+					for _, tk := range []int{-1, 1, 2} {
+						to := int64(1)
+						if tk < 0 {
+							to = 0
+						}
+						c := Config{MaxLoop: 1000, MaxWall: 900, Preempt: pre, Ticks: tk, Stubs: map[string]bool{"uf-checksum": true}}
+						jobs = append(jobs, Job{Pkg: "root", Func: "VerifC19Concurrent", Args: []int64{v6, rev, to}, Cfg: c, Threads: true, Reach: []string{"joined"}})
+					}
+				}
+			}
 			return jobs
 		},
 		Bounds: func(tier string) map[string]string {
 			return map[string]string{
 				"echoNotify":   "every waiter table of <= 3 entries with distinct arbitrary identifiers, every notified identifier",
 				"Parse":        "every IPv4/ICMP and IPv6/ICMPv6 frame of length 0..80 (all contents) with one pending waiter of arbitrary identifier: completed iff the reference decoder sees a well-formed echo reply with that identifier",
+				"concurrent":   "thread mode: two goroutines ping (IPv4 / IPv6) while a third parses the echo replies in request order or reversed; paths on which no timer fires (both pings must return nil), one timer, two timers; preemption bound 0 (thorough 1); happens-before race check on the waiter table and entries; distinct identifiers, nil-or-timeout results, no waiter left behind",
 				"ping / Ping6": "arbitrary identifier counter value (including the wrap), arbitrary target MAC; five scenarios: no reply, send failure, matching reply parsed while waiting (both select outcomes), foreign identifier, a second ping started while the first is in flight",
 			}
 		},
